@@ -4,8 +4,11 @@ from fragbase import *
 from wrapbase import *
 
 
-def cost_model(frs, lws, pen, cuts):
+def cost_model(frs, lws, pen, cuts, short_of_target=True):
     """documented cost of an arrangement (list of (i, j) fragment ranges) as an integer term.
+    `short_of_target`: the short-last-line threshold is a fraction of the target width max(line width, 1) -- the
+    reading under which all three width-dependent terms use the same width -- or (False) of the literal line width,
+    as the field documentation says; the two readings differ only for line widths < 1.
     per line: nline_penalty; overflow: (line - target) * overflow_penalty; else squared gap on every line but the
     last; a last line holding a single fragment shorter than target / short_last_line_fraction pays
     short_last_line_penalty; a line ending in a fragment with a penalty (hyphen) pays hyphen_penalty."""
@@ -22,9 +25,9 @@ def cost_model(frs, lws, pen, cuts):
             body = gap * gap if (is_sym(gap) or True) else gap * gap
         elif j - i == 1:
             if isinstance(SLF, int) and SLF == 0:
-                short = True
+                short = True if short_of_target else v_lt(0, lw)      # x / 0.0: inf, or NaN for 0 / 0.0
             else:
-                short = v_lt(linew * SLF, target)
+                short = v_lt(linew * SLF, target if short_of_target else lw)
             body = v_ite(short, SLP, 0)
         else:
             body = 0
@@ -53,7 +56,7 @@ class C03(FragHarness, WrapHarness):
                 if n == 4 and nlw == 2:
                     continue
                 out.append({'algo': 'O', 'num': 'int', 'n': n, 'nlw': nlw, 'B': 64 if q else 1 << 10, 'LB': 256 if q else 1 << 12,
-                            'SB': 3, 'PB': 1, 'pen_le_next': True, 'lwmin': 1})
+                            'SB': 3, 'PB': 1, 'pen_le_next': True, 'lwmin': 0})
         # text level: wrap's general path with OptimalFit; fragments recomputed by the real pipeline stages
         for split in ('N', 'H'):
             for bw in (True, False):
@@ -63,13 +66,13 @@ class C03(FragHarness, WrapHarness):
                     'alphabet': [' ', 'a', '-', '你', '\u00ad'], 'n': 3 if q else 4, 'wmax': 1 << 16})
         # arbitrary non-negative penalties
         out.append({'algo': 'O', 'num': 'int', 'n': 2 if q else 3, 'nlw': 1, 'B': 32, 'LB': 128, 'SB': 2, 'PB': 1,
-                    'pen_le_next': True, 'lwmin': 1, 'sympen': True})
+                    'pen_le_next': True, 'lwmin': 0, 'sympen': True})
         return out
 
     def bounds_text(self, tier):
         q = tier == 'quick'
         return ('wrap_optimal_fit through smawk MIR on 1..%d fragments with symbolic integer widths <= %d, whitespace <= 3, '
-                'penalty width <= 1 and <= the next fragment width, one or two symbolic line widths >= 1; default '
+                'penalty width <= 1 and <= the next fragment width, one or two symbolic line widths >= 0 (at width 0 optimality under either reading of the short-last-line threshold); default '
                 'penalties, and arbitrary penalties <= 2^8 at n <= %d; oracle: cost <= cost of each of the 2^(n-1) '
                 'arrangements under an independent transcription of the documented cost model. The ~60-fragment '
                 'regime of the property text is outside the claim.' % (3 if q else 4, 64 if q else 1024, 2 if q else 3))
@@ -175,12 +178,28 @@ class C03(FragHarness, WrapHarness):
             return
         W = inp['W']
         f3 = [f[:3] for f in frs]
-        mine = cost_model(f3, [W, W], DEFAULT_PEN, cuts)
-        for alt in arrangements(n):
-            if alt == cuts:
-                continue
-            I.check(v_le(mine, cost_model(f3, [W, W], DEFAULT_PEN, alt)), 'min-cost-text',
-                    'wrap returned arrangement %r of the paragraph fragments, %r is cheaper' % (cuts, alt))
+        self.min_cost(I, f3, [W, W], DEFAULT_PEN, cuts, 'min-cost-text',
+                      'wrap returned, for the paragraph fragments, arrangement')
+
+    def min_cost(self, I, frs, lws, pen, got, clause, what):
+        """the returned arrangement costs no more than any other.  Line widths >= 1: one documented model.  A line
+        width of 0: the documentation can be read two ways for the short-last-line threshold (fraction of the
+        target width max(w, 1) as in the gap/overflow terms, or of the literal width); the result must be optimal
+        under at least one of the two readings -- stated as one obligation."""
+        n = len(frs)
+        alts = [a for a in arrangements(n) if a != got]
+        if I.branch(v_and(*[v_le(1, lw) for lw in lws])):
+            mine = cost_model(frs, lws, pen, got)
+            for alt in alts:
+                I.check(v_le(mine, cost_model(frs, lws, pen, alt)), clause, '%s %r costs more than %r' % (what, got, alt))
+            return
+        both = []
+        for reading in (True, False):
+            mine = cost_model(frs, lws, pen, got, reading)
+            both.append(v_and(*[v_le(mine, cost_model(frs, lws, pen, alt, reading)) for alt in alts]))
+        I.check(v_or(*both), clause + '-width0',
+                '%s %r is not a minimum-cost arrangement under either reading of the short-last-line threshold at '
+                'line width 0' % (what, got))
 
     def oracle(self, I, cfg, inp, cuts):
         if cfg.get('level') == 'text':
@@ -190,12 +209,7 @@ class C03(FragHarness, WrapHarness):
             return
         pen = inp.get('pen', DEFAULT_PEN)
         got = [(a, b) for a, b, _ in cuts]
-        mine = cost_model(inp['frags'], inp['lws'], pen, got)
-        for alt in arrangements(n):
-            if alt == got:
-                continue
-            I.check(v_le(mine, cost_model(inp['frags'], inp['lws'], pen, alt)), 'min-cost',
-                    'returned arrangement %r costs more than %r' % (got, alt))
+        self.min_cost(I, inp['frags'], inp['lws'], pen, got, 'min-cost', 'returned arrangement')
 
 
 HARNESS = C03()
